@@ -710,8 +710,10 @@ def recursion_forwards(fn):
     return kws.get("style_kwargs") == "style_kwargs"
 
 
-def collect(repo):
-    """everything GenStyle.v is printed from, as python structures (also used by harness/props/C20.py)"""
+def collect(repo, strict=True):
+    """everything GenStyle.v is printed from, as python structures (also used by harness/props/C20.py).
+    strict=False (search only, never for the Coq text): a whole-body source form that is not recognised
+    gives flag None instead of failing, so that the implementation-level search still has the schema"""
     repo = os.path.abspath(repo)
     _MOD_CACHE.clear()
     defaults = load_defaults(repo)
@@ -783,17 +785,34 @@ def collect(repo):
             if not issubclass(famcls[b], famcls[a]):
                 fail(f"families {a}/{b} of {cname} are not ordered by the subclass relation")
         spec_rows.append((cname, order))
-    if body_text(strip_doc(fn_ast(basegeo.style.fset).body)) != "self._style = self._validate_style(val)":
+    if strict and body_text(strip_doc(fn_ast(basegeo.style.fset).body)) != "self._style = self._validate_style(val)":
         fail("BaseGeo.style setter is not `self._style = self._validate_style(val)`")
+    def form(fn, variants, what):
+        try:
+            return whole_body(fn, variants, what)
+        except Untranslatable:
+            if strict:
+                raise
+            return None
+
+    def guarded(f):
+        try:
+            return f()
+        except Untranslatable:
+            if strict:
+                raise
+            return None
+
+    whole_body_ = form
     flags = {
-        "reset_mode": whole_body(dcls.DefaultSettings.reset, RESET_FORMS, "DefaultSettings.reset"),
-        "ctor_copies_style": whole_body(basegeo._process_style_kwargs, PROCESS_FORMS,   # pylint: disable=protected-access
+        "reset_mode": whole_body_(dcls.DefaultSettings.reset, RESET_FORMS, "DefaultSettings.reset"),
+        "ctor_copies_style": whole_body_(basegeo._process_style_kwargs, PROCESS_FORMS,   # pylint: disable=protected-access
                                         "BaseGeo._process_style_kwargs") == "copy",
-        "magic_merge_fresh": whole_body(dutil.magic_to_dict, M2D_FORMS, "magic_to_dict") == "fresh",
-        "style_setter_takes_instance": whole_body(basegeo._validate_style, VALIDATE_STYLE_FORMS,   # pylint: disable=protected-access
+        "magic_merge_fresh": whole_body_(dutil.magic_to_dict, M2D_FORMS, "magic_to_dict") == "fresh",
+        "style_setter_takes_instance": whole_body_(basegeo._validate_style, VALIDATE_STYLE_FORMS,   # pylint: disable=protected-access
                                                   "BaseGeo._validate_style") == "takeover",
-        "recursion_forwards_style_kwargs": recursion_forwards(
-            mods["magpylib._src.display.traces_utility"].get_flatten_objects_properties_recursive),
+        "recursion_forwards_style_kwargs": guarded(lambda: recursion_forwards(
+            mods["magpylib._src.display.traces_utility"].get_flatten_objects_properties_recursive)),
     }
 
     # colours
